@@ -1,10 +1,12 @@
 package main
 
 import (
+	"encoding/json"
 	"fmt"
 	"os"
 	"strconv"
 	"time"
+	"verif/engine"
 
 	"verif/shim/vsched"
 )
@@ -132,4 +134,14 @@ func splitLines(s string) []string {
 		}
 	}
 	return out
+}
+
+func init() {
+	workers["supplement"] = func(args []string) {
+		r := engine.Start("C32", "thorough", "exploration")
+		n, _ := strconv.Atoi(args[0])
+		res := supplement(r, n, 300*time.Second)
+		b, _ := json.MarshalIndent(res, "", " ")
+		fmt.Println(string(b))
+	}
 }
